@@ -83,7 +83,8 @@ def config_term(sc):
     script = '[' + '; '.join('(%s, %s)' % (DECISION[d], optz(c)) for d, c in sc['script']) + ']'
     known = '[' + '; '.join('(%s, %s)' % (z(p[0]), ps_term(p)) for p in sc.get('known', [])) + ']'
     fps = 'None' if sc['ps'] is None else '(Some %s)' % ps_term(sc['ps'])
-    return '{| pol := scripted %s; fut_ps := %s; known := %s; pv := %s; tgt := %s |}' % (script, fps, known, z(sc['pv']), optz(sc.get('target')))
+    return '{| pol := scripted %s; fut_ps := %s; known := %s; pv := %s; tgt := %s; inline_retry := %s |}' % (script, fps, known, z(sc['pv']), optz(sc.get('target')),
+                                                                                              'true' if sc.get('inline') else 'false')
 
 
 def init_term(sc):
@@ -168,6 +169,7 @@ def random_scenario(rng, weights=None, max_hosts=4, max_ops=14, env_changes=True
     if rng.random() < 0.15:
         sc['timeout'] = True
         sc['pools'] = [7 if (p != 6 and rng.random() < 0.5) else p for p in sc['pools']]
+    sc['inline'] = rng.random() < 0.25      # executor-first schedule of retries
     sc['metrics'] = rng.random() < 0.4    # Cluster(metrics_enabled=True)
     sc['nids'] = rng.choice([1, 1, 2, 4, 300])   # size of the connections' stream-id deque (id 0 first, FIFO recycling)
     if rng.random() < 0.5:
